@@ -355,6 +355,10 @@ def view_ops_for(n, mutable):
     for a in range(n + 2):
         for b in range(n + 2):
             ops.append((f"range:{a}:{b}", b - a if a <= b <= n else None))
+    # inclusive sub-ranges, reversed ones (a > b + 1) included: std accepts `a..=b` iff a <= b + 1 <= n
+    for a in range(n + 2):
+        for b in sorted({0, max(n - 1, 0), n}):
+            ops.append((f"incl:{a}:{b}", b + 1 - a if (a <= b + 1 and b + 1 <= n) else None))
     for a in range(n + 2):
         ops.append((f"rangeto:{a}", a if a <= n else None))
         ops.append((f"rangefrom:{a}", n - a if a <= n else None))
